@@ -318,6 +318,30 @@ def check_orbital_semantics(ctx):
         return None
     obligation("R4", f"restricted: all {2 * len(VEC) ** 2 * 2} two-step assignment sequences over {len(VEC)} occupation vectors (incl. alpha == beta, integer spin sums) read back as assigned", W("occsa", True), f)
 
+    # unrestricted orbitals whose occupations are not set yet: an assignment of one spin block is either refused or
+    # stored -- it may not be dropped silently
+    def f():
+        for order in ("a", "b", "ab", "ba"):
+            r = unres()
+            na, nb = int(r.fields["norba"]), int(r.fields["norbb"])
+            r.fields["occs"] = None
+            vals = {"a": np.array([0.75 - 0.125 * i for i in range(na)]), "b": np.array([0.5 - 0.0625 * i for i in range(nb)])}
+            ev = fresh()
+            try:
+                for side in order:
+                    ev.set(r, "occs" + side, vals[side].copy())
+            except Raised:
+                continue  # refused (the unmodified class cannot store into occupations that do not exist)
+            for side in order:
+                try:
+                    got = fresh().get(r, "occs" + side)
+                except Raised as exc:
+                    return f"unrestricted orbitals without occupations: after `mo.occs{' / mo.occs'.join(order)} = ...` reading occs{side} raises {exc.args[0]}"
+                if got is None or not _eq(got, vals[side]):
+                    return f"unrestricted orbitals without occupations: `mo.occs{side} = {vals[side].tolist()}` is accepted, but occs{side} then reads {None if got is None else np.asarray(got).tolist()} (the assignment is dropped)"
+        return None
+    obligation("R4", "unrestricted orbitals without occupations: assigning a spin block is refused or reads back as assigned", W("occsb", True), f)
+
     # ------------------------------------------------------------------ R5: derived counts
     def f():
         for mk in (unres, lambda: res(True)):
